@@ -224,6 +224,8 @@ fn dense_c02(thorough: bool, _seed: u64) -> Vec<Case> {
                             tape: (0..120).map(|i| (mix(n as u64, i) & 0xff) as u8).collect(),
                             weights: (0..18).map(|i| if i >= 2 { 6 } else { 1 }).collect(),
                             yield_every: 1,
+                            drop_yield: 0,
+                            src_yield: 0,
                         }),
                         faults: vec![],
                     };
@@ -335,6 +337,14 @@ pub fn adjust_c10(case: Case) -> Case {
             }
             // the tail stays as generated: later matches may well be found first
         }
+    }
+    // destructors are not yield points in C10: between the match decision and the publication of the early exit the
+    // finder legitimately runs user code - it drops the unread rest of its chunk (owning sources) and of a flat_map's
+    // inner iterator - and whatever the others do meanwhile is not "work after the signal". The exact bound below is
+    // stated for schedules whose only yield points are closure entries and runner hooks.
+    if let Mode::Sched(s) = &mut case.mode {
+        s.drop_yield = 0;
+        s.src_yield = 0;
     }
     if let Source::Endless { .. } = case.source {
         let (t, c) = resolved_threads_chunk(&case);
@@ -498,7 +508,12 @@ fn check_c10(case: &Case) -> Verdict {
     let max_after = per_tid.values().copied().max().unwrap_or(0);
     v.label(format!("max elements another thread started after the match: {}", bucket(max_after)));
     let (t_res, _) = resolved_threads_chunk(case);
-    if case.is_sched() {
+    if r.sched.revoked > 0 {
+        // two threads ran at the same time for a while (a park inside Drop was revoked): the bound below is exact only
+        // for one-thread-at-a-time schedules
+        v.label("revoked park: exact bound not asserted");
+    }
+    if case.is_sched() && r.sched.revoked == 0 {
         if finder_after > 0 {
             v.fail = Some(Verdict::fail(
                 format!("the thread that found the match evaluated {finder_after} more closure calls afterwards"),
